@@ -161,6 +161,11 @@ def gen_case(rng):
             # the statement's business; masked payloads keep to the cases without a fixed mask)
             if ev["op"] == "push" and ev["form"] in ("wrongsize", "wrongshape", "maskedarr"):
                 ev["form"] = "shaped"
+        pushes = [ev for ev in events if ev["op"] == "push"]
+        if pushes and rng.random() < 0.5:
+            # the metadata also declare a fill value, and a *valid* cell (the second one) of one publication holds exactly
+            # that value: the mask demanded is the mask of the metadata — nothing more is hidden
+            case["fill"] = [rng.choice(["_FillValue", "missing_value"]), 0.5 + rng.choice(pushes)["val"]]
     if rng.random() < 0.25:
         # the output spills to disk beyond k payloads (C10 owns transparency; here: what the link refuses / serves)
         case["mem_limit_payloads"] = rng.choice([0, 1, 1, 2])
@@ -258,6 +263,8 @@ def run_impl(case):
         m0 = np.zeros(tuple(int(n) for n in g.data_shape), dtype=bool)
         m0.reshape(-1)[0] = True
         okw["mask"] = m0
+        if case.get("fill"):
+            okw[case["fill"][0]] = float(case["fill"][1])
     out = fm.Output(name="out", info=fm.Info(time=T(0), grid=g, units=case["out_units"], **okw))
     g2 = mk_grid(case["grid"], consumer=True)
     inp = fm.Input(name="in", info=fm.Info(time=T(0), grid=g2, units=case["in_units"]))
